@@ -12,6 +12,8 @@ import (
 	"time"
 
 	sdk "github.com/cosmos/cosmos-sdk/types"
+
+	markettypes "github.com/regen-network/regen-ledger/x/ecocredit/v3/marketplace/types/v1"
 )
 
 // Modes of message generation.
@@ -39,6 +41,12 @@ type Profile struct {
 	PGas            float64            `json:"p_gas"`
 	PBank           float64            `json:"p_bank"`
 	PMulti          float64            `json:"p_multi"`
+	// PChain: share of multi-message txs whose later messages are built from the predicted state after
+	// the earlier ones (create a batch and put it into a basket in one tx, ...)
+	PChain float64 `json:"p_chain,omitempty"`
+	// PRetry: a tx that failed because of its gas limit or an injected bank error is submitted again
+	// (ample gas, no fault) a little later
+	PRetry float64 `json:"p_retry,omitempty"`
 	PDelay          float64            `json:"p_delay"`
 	PDup            float64            `json:"p_dup"`
 	PDrop           float64            `json:"p_drop"`
@@ -61,6 +69,78 @@ type Profile struct {
 	AvoidKnown bool `json:"avoid_known"`
 	// PTie: probability that a new batch copies the start date of an existing one.
 	PTie float64 `json:"p_tie"`
+}
+
+var creatorKinds = map[string]bool{"CreateClass": true, "CreateProject": true, "CreateBatch": true, "BasketCreate": true, "Sell": true, "BridgeReceive": true}
+
+// freshSet: what a predicted state holds that the state before it did not
+type freshSet struct {
+	names  map[string]bool // class ids, project ids, batch denoms, basket denoms
+	orders map[uint64]bool
+}
+
+func freshOf(old, nv *Snapshot) *freshSet {
+	f := &freshSet{map[string]bool{}, map[uint64]bool{}}
+	for _, c := range nv.Classes {
+		if old.ClassByKey(c.Key) == nil {
+			f.names[c.Id] = true
+		}
+	}
+	for _, p := range nv.Projects {
+		if old.ProjectByKey(p.Key) == nil {
+			f.names[p.Id] = true
+		}
+	}
+	for _, b := range nv.Batches {
+		if old.BatchByKey(b.Key) == nil {
+			f.names[b.Denom] = true
+		}
+	}
+	for _, b := range nv.Baskets {
+		if old.BasketByID(b.Id) == nil {
+			f.names[b.BasketDenom] = true
+		}
+	}
+	for _, o := range nv.Orders {
+		if old.OrderByID(o.Id) == nil {
+			f.orders[o.Id] = true
+		}
+	}
+	if len(f.names)+len(f.orders) == 0 {
+		return nil
+	}
+	return f
+}
+
+// mentions: does the message name something of the fresh set?
+func (f *freshSet) mentions(m sdk.Msg) bool {
+	hit := false
+	walkStrings(reflect.ValueOf(m), func(s string) string {
+		if f.names[s] {
+			hit = true
+		}
+		return s
+	})
+	if hit {
+		return true
+	}
+	switch x := m.(type) {
+	case *markettypes.MsgBuyDirect:
+		for _, o := range x.Orders {
+			if f.orders[o.SellOrderId] {
+				return true
+			}
+		}
+	case *markettypes.MsgCancelSellOrder:
+		return f.orders[x.SellOrderId]
+	case *markettypes.MsgUpdateSellOrders:
+		for _, u := range x.Updates {
+			if f.orders[u.SellOrderId] {
+				return true
+			}
+		}
+	}
+	return false
 }
 
 type Actor struct {
@@ -107,6 +187,8 @@ type Gen struct {
 	hashes []hashSeed
 	// recently delivered tx steps (candidates for duplication)
 	recent []*Step
+	// what the predicted state of a chained tx holds that the state before the tx did not
+	fresh *freshSet
 	// consumed origin txs (generator memory, for deliberate replays)
 	origins []originSeed
 	// resolver urls used
@@ -221,6 +303,16 @@ func (g *Gen) Run() {
 			}
 			if p.PProbe > 0 && st.Tx.Signer == g.Gov.Addr && g.W.curBlock != nil && len(g.W.curBlock.Txs) > 0 && g.W.curBlock.Txs[len(g.W.curBlock.Txs)-1].Res.OK {
 				g.pendingProbe = true // an accepted parameter change: open a faults-stopped probe phase
+			}
+			if (st.Tx.Gas > 0 || st.Tx.BankFault != nil) && !st.Tx.Probe && g.W.curBlock != nil && len(g.W.curBlock.Txs) > 0 && !g.W.curBlock.Txs[len(g.W.curBlock.Txs)-1].Res.OK && g.R.Chance(p.PRetry) {
+				// the client submits its failed tx again, with ample gas (and the fault is gone)
+				cp := *st
+				txc := *st.Tx
+				txc.Gas, txc.BankFault = 0, nil
+				txc.Note = st.Tx.Note + "+retry"
+				cp.Tx, cp.Alt = &txc, nil
+				g.mempool = append(g.mempool, pendingTx{&cp, g.blk + g.R.Range(0, 2)})
+				g.W.Fault("F5_retry_after_failure")
 			}
 			g.recent = append(g.recent, st)
 			if len(g.recent) > 16 {
@@ -352,8 +444,34 @@ func (g *Gen) buildTx() *Step {
 	// several messages of one kind built from the same view: each is fine alone, together they
 	// compete for the same balance / fee / order / sequence number
 	sameKind := nm > 1 && g.R.Chance(0.4)
+	// chained: each later message is built from the client's prediction of the state after the earlier
+	// ones and prefers what they created
+	chained := nm > 1 && !sameKind && !stale && !impersonate && g.W.inBlock && g.R.Chance(p.PChain)
+	defer func() { g.fresh = nil }()
 	first := ""
 	for i := 0; i < nm; i++ {
+		if chained && i > 0 && len(msgs) > 0 {
+			pre := &TxStep{Signer: a.Addr, Note: note + "/prefix"}
+			okEnc := true
+			for _, m := range msgs {
+				bz, err := EncodeMsg(m)
+				if err != nil {
+					okEnc = false
+					break
+				}
+				pre.Msgs = append(pre.Msgs, bz)
+			}
+			if okEnc {
+				if !g.emit(&Step{Kind: KSim, Tx: pre, SimSnap: true}) {
+					return nil
+				}
+				if nv := g.W.LastSimSnap; nv != nil {
+					g.fresh = freshOf(v, nv)
+					v = nv
+					g.W.Probe("chained_tx_message_built_from_predicted_state")
+				}
+			}
+		}
 		var kind string
 		var m sdk.Msg
 		if sameKind && first != "" {
@@ -364,6 +482,17 @@ func (g *Gen) buildTx() *Step {
 			}
 		} else {
 			kind, m = g.genMsg(a, v, mode)
+			// a chained tx is meant to begin with a message that creates something
+			for try := 0; chained && i == 0 && try < 6 && !creatorKinds[kind]; try++ {
+				kind, m = g.genMsg(a, v, mode)
+			}
+			// a chained message is meant to use what the earlier messages of the tx created
+			for try := 0; g.fresh != nil && try < 10 && (m == nil || !g.fresh.mentions(m)); try++ {
+				kind, m = g.genMsg(a, v, mode)
+			}
+			if g.fresh != nil && m != nil && g.fresh.mentions(m) {
+				g.W.Probe("chained_tx_message_uses_what_the_tx_created")
+			}
 		}
 		if m == nil {
 			continue
@@ -864,6 +993,7 @@ func NewGen(property string, tier string, vseed, runIdx uint64, ck Checker) (*Ge
 		return nil, err
 	}
 	g.W = w
+	w.Generating = true
 	w.Trace = g.Trace
 	if exported {
 		w.Probe("genesis_exported_from_an_earlier_chain")
@@ -896,6 +1026,7 @@ func (g *Gen) preHistory(base *GenesisDoc, opts ChainOpts) *GenesisDoc {
 		q.Weights[k] = v
 	}
 	q.MaxBlocks, q.MaxTxs, q.MaxPerBlk = g.R.Range(3, 9), g.R.Range(25, 80), g.R.Range(4, 12)
+	q.PChain, q.PRetry = 0, 0
 	q.PGas, q.PBank, q.PMulti, q.PDelay, q.PDup, q.PDrop, q.PCrash, q.PTorn, q.PRestart, q.PGenesis, q.PQuery, q.PProbe = 0, 0, 0, 0, 0, 0, 0, 0, 0, 0, 0, 0
 	q.EndGenesis, q.AltSched, q.AvoidKnown, q.PStale = false, false, true, 0
 	q.DtMix = []float64{0, 0, 1, 4, 2, 1, 0.5, 0} // blocks minutes to days apart: open orders stay open
